@@ -70,7 +70,14 @@ class Findings:
         self.fixed = data.get("fixed", [])
 
     def for_property(self, prop):
-        return [f for f in self.findings if prop in f.get("properties", [f.get("property")])]
+        """Findings consulted when classifying a discrepancy of `prop`: those listed under
+        it (`properties`: the finding has been witnessed by that property's check) and those
+        whose mechanism can also surface there (`also_matches_in`: same predicate, not (yet)
+        witnessed by that check's workloads)."""
+        return [f for f in self.findings if prop in f.get("properties", []) or prop in f.get("also_matches_in", [])]
+
+    def listed_under(self, prop):
+        return [f for f in self.findings if prop in f.get("properties", [])]
 
     def classify(self, prop, disc):
         """Returns the id of the first matching known finding, or None."""
